@@ -45,11 +45,11 @@ func c03Runner(r *harness.Run) *progRunner {
 func runC03(r *harness.Run) {
 	pr := c03Runner(r)
 	th := r.Thorough()
-	gens := map[string]Gen{"F-closure": genClosure(th), "F-env": genEnv(th)}
+	gens := map[string]Gen{"F-closure": genClosure(th), "F-env": genEnv(th), "F-nest": genNest(th)}
 	r.Rule = "product of capture site (while/repeat/numeric for/generic for/do/function called in a loop/nested function) x captured variable kind x exit route (fall-through, break, goto out, goto continue, return, tail call, error/fault caught by pcall/xpcall, coroutine abandoned/dying/returning) x iteration of the exit x what runs afterwards (nothing, register-reusing call, re-entry) x use (read, write through one closure and read through another); " +
 		"plus getfenv/setfenv programs over function/level targets; each program runs on gopher-lua and on the reference interpreter (variables are heap cells there, so closures are correct by construction); white-box: after protected calls no open upvalue may point above the live frames"
 	r.Assumptions = []string{"luaref models variables as heap cells", "instruction-level fault injection for closures is part of C05's engine"}
-	pr.runGens(gens, []string{"F-env", "F-closure"})
+	pr.runGens(gens, []string{"F-env", "F-closure", "F-nest"})
 }
 
 // ---- F-closure ---------------------------------------------------------------------------------------
